@@ -110,6 +110,28 @@ CHECKS["C19"] = dict(
          "finite samples of run layouts",
     design="DESIGN.md section 3 C19")
 
+CHECKS["C03"] = dict(
+    technique="constant folding of the key tables + object-aware abstract interpretation of get_key / could_be_unfinished_* on a table-derived finite sequence set against an independent reference segmentation; structural rules for find_key",
+    text="Prefix set == all proper prefixes of ESC-initial keys (independently recomputed); table shape; MAX_KEYPRESS_SIZE "
+         "adequate; could_be_unfinished_utf8 for every lead byte x length against RFC 3629; could_be_unfinished_char and "
+         "get_key interpreted on every table key, every prefix, each followed by representative bytes (thorough: every byte), "
+         "every single byte and UTF-8 lead/continuation classes, for utf8/ascii/latin-1 and both `full` values, restricted "
+         "to sequences reachable under the feed-one-byte protocol, against a reference segmentation written from the "
+         "property (ask for more exactly while the bytes can grow into a table sequence or a valid character; name when "
+         "recognised; fail otherwise); find_key's byte-buffer discipline. The sequence set is finite and table-derived, not "
+         "the full decision tree (utf-8 continuation bytes are sampled by class).",
+    note="trusted: Python codecs, RFC 3629 lengths, the evaluator of sa/; table NAMES have no independent oracle",
+    design="DESIGN.md section 3 C03")
+CHECKS["C20"] = dict(
+    technique="constant folding of the tables + object-aware abstract interpretation of get_key under all three naming modes and of KeyMap.__getitem__ over the whole config-name domain",
+    text="curses keys are a subset of curtsies keys; on the table-derived sequence set of C03 (3 encodings x 2 `full` values) the "
+         "three naming modes agree on the kind of answer for every reachable case, i.e. cut the stream at the same places; "
+         "_key_name is total on every table key; bytes naming returns the keypress bytes, the others table name / character "
+         "/ xHH; KeyMap.__getitem__ interpreted for C-a..z, M-<every printable>, F1..F12, SPECIALS and '' produces only names "
+         "that occur as values of the folded CURTSIES_NAMES, () for the unbound key, KeyError for a catalogue of invalid names.",
+    note="trusted: Python codecs; the evaluator of sa/. Two genuine dead names (C-i, 'M- ') are recorded as known findings.",
+    design="DESIGN.md section 3 C20")
+
 NOT_APPLICABLE = [
     ("C06", "slicing/normalisation is integer arithmetic over run layouts; no structural clause is a necessary condition visible in the code shape"),
     ("C09", "five-way overlap arithmetic across runs; a sound static decision needs inductive integer invariants (solver family)"),
